@@ -443,6 +443,7 @@ class RunB:
                         rec.twin = tw
                     rec.version = 0 if src.version == v0 else 1
             else:
+                built = True
                 try:
                     self.in_lib[tid] = True
                     live = ops.build_input(op)
@@ -451,7 +452,8 @@ class RunB:
                     self.in_lib[tid] = False
                     res = canon_exc(e)
                     live = None
-                if live is not None:
+                    built = False
+                if built:
                     rec.inp = live
                     rec.snap_before = ops.snapshot_input(op, live)
                     self.in_lib[tid] = True
